@@ -130,6 +130,7 @@ type Obligation struct {
 	Result  *SolveResult
 	Known   *KnownFinding
 	NotClaimed string
+	PartExpr Expr // the (part of the) contract clause this obligation checks, for replay
 }
 
 type FnVC struct {
@@ -165,6 +166,7 @@ type FnVC struct {
 	extraAssume []string // known-finding guards: assumed at entry
 	unmodelled map[string]bool
 	constCapture map[ssa.Value]TV
+	prop     string // the property being checked: clauses tagged for other properties only are ignored
 	usesSliceTag bool
 	compValType map[string]types.Type
 	axiomDone map[string]bool
@@ -783,4 +785,14 @@ func (vc *FnVC) keysOf(es, arr, n string) string {
 		vc.enc.header = append(vc.enc.header, "(assert (forall ((a "+arraySort(sInt, es)+")) (! (= ("+fn+" a 0) ((as const "+arraySort(es, sBool)+") false)) :pattern (("+fn+" a 0)))))")
 	}
 	return "(" + fn + " " + arr + " " + n + ")"
+}
+
+// clauseApplies: an untagged clause applies to every property; a tagged one only to the
+// properties it names (so that a scope assumption made for one property does not weaken the
+// obligations of another).
+func (vc *FnVC) clauseApplies(cl *Clause) bool {
+	if len(cl.Tags) == 0 || vc.prop == "" {
+		return true
+	}
+	return hasTag(cl.Tags, vc.prop)
 }
